@@ -31,6 +31,7 @@ let init () =
     match args with
     | [a; b] -> if spawn_ok_n (codes a) (codes b) then "ok" else "UNKNOWN-SPAWN"
     | _ -> "bad-request");
+  register "racescen" (fun _ -> "n/a: race-detector scenario; the model's statement is C18_race_free");
   register "accs" (fun _ ->
     "ok " ^ Stdlib.String.concat " " (Stdlib.List.sort_uniq compare
       (Stdlib.List.map (fun ((g, x), w) -> gname g ^ ":" ^ lname x ^ ":" ^ (if w then "w" else "r")) model_acc)))
